@@ -19,7 +19,7 @@ PROP = {
         # state-machine half (timer discipline): one real StateMachine per case, harness RoundTimer vs the reference model's step
         "bin": "smsim", "pkg": "tm/tmengine/internal/tmstate", "inject": [("smsim", "tm/tmengine/internal/tmstate")],
         "tests": [
-            {"name": "TestVerifC12TimerDiscipline", "quick": 12000, "thorough": 1280000, "shards": {"quick": 4, "thorough": 16}},
+            {"name": "TestVerifC12TimerDiscipline", "quick": 6000, "thorough": 640000, "shards": {"quick": 4, "thorough": 16}, "env": {"GOMAXPROCS": "2"}},
         ],
     }],
 }
